@@ -605,7 +605,50 @@ def r02_6(ctx: Ctx) -> None:
            "identifiers are collected from the CONDITIONS marker up to the next rule keyword", form="")
 
 
+def r02_7(ctx: Ctx) -> None:
+    """ printer / grammar agreement on negation: the grammar has `[not] operand` with operand an identifier, a (group), cds(),
+        minimum() or minscore() - never another `not`.  A printer that prefixes "not " to the text of a sub-condition without
+        a group must know that the sub-condition does not itself print a leading "not" """
+    from ..cfg import CFG
+    from ..flow import path_facts
+    qual = "Conditions.__str__"
+    func = ctx.fn(RP, qual)
+    cfg = CFG(func)
+    prefixes = {t.id for n in walk_local(func) if isinstance(n, ast.Assign) and isinstance(n.value, ast.IfExp)
+                and isinstance(n.value.body, ast.Constant) and str(n.value.body.value).startswith("not")
+                for t in n.targets if isinstance(t, ast.Name)}
+    bare = []
+    for ret in [r for r in walk_local(func) if isinstance(r, ast.Return) and isinstance(r.value, ast.JoinedStr)]:
+        vals = ret.value.values
+        if len(vals) >= 2 and isinstance(vals[0], ast.FormattedValue) and txt(vals[0].value) in prefixes \
+                and isinstance(vals[1], ast.FormattedValue):
+            bare.append((ret, vals[1].value))
+    if not bare:
+        ctx.ob("R02.7", RP, func, qual, "negation prefix never doubles", True,
+               "no sub-condition is printed directly behind the negation prefix", form="", vacuous=True)
+        return
+    for index, (ret, sub) in enumerate(bare):
+        from ..flow import inline_reaching
+        sub_text = txt(inline_reaching(cfg, ret, sub))
+        names = {txt(sub), sub_text}
+        safe = False
+        for expr, truth in path_facts(cfg, ret):
+            text = txt(expr)
+            if not truth and isinstance(expr, ast.BoolOp) and isinstance(expr.op, ast.And) and "self.negated" in text \
+                    and any(f"{n}.negated" in text for n in names):
+                safe = True
+            if not truth and (text == "self.negated" or any(text == f"{n}.negated" for n in names)):
+                safe = True
+        ctx.ob("R02.7", RP, ret, qual, f"negation prefix never doubles#{index}", safe,
+               "a sub-condition is printed directly behind the negation prefix only if it is not negated itself: the grammar has "
+               "no `not not`, so the regenerated text would not parse",
+               detail="" if safe else "`b and not (not a)` is regenerated as `b and not not a`, which the parser rejects",
+               form=txt(ret.value))
+
+
 def run(ctx: Ctx) -> None:
+    ctx.rule("R02.7", "regenerated negations stay inside the grammar", floor=1)
+    r02_7(ctx)
     ctx.rule("R02.1", "precedence is the layering of the recursive descent; negation and groups", floor=14)
     ctx.rule("R02.2", "token enum, tokeniser mapping, keyword predicate and documented grammar agree", floor=7)
     ctx.rule("R02.3", "kilobase scaling, multiplier roles, single application, inverse on reconstruction", floor=10)
